@@ -129,7 +129,8 @@ def coq_eval_files(files, timeout=900):
         def start(name, text):
             path = os.path.join(d, name + '.v')
             open(path, 'w').write(text)
-            return subprocess.Popen(['timeout', str(timeout), 'coqc', '-Q', COQ, 'Bisturi', '-w', '-all', path],
+            return subprocess.Popen(['bash', '-c', 'ulimit -s unlimited 2>/dev/null; exec timeout %d coqc -Q %s Bisturi -w -all %s'
+                                     % (timeout, COQ, path)],
                                     cwd=d, stdout=subprocess.PIPE, stderr=subprocess.STDOUT, text=True)
         while pending or running:
             while pending and len(running) < NPROC:
